@@ -149,6 +149,10 @@ extern "C" fn h_write_multiple_coils<'a>(
             }
             items.push(((*p).index, (*p).value));
         }
+        // an exhausted iterator stays exhausted
+        if !ffi::rodbus_bit_value_iterator_next(it).is_null() {
+            WLOG.lock().unwrap().push("wC!more".into());
+        }
     }
     WLOG.lock().unwrap().push(format!("wC.{}.{}", start, bits_text(&items)));
     let mut ok = true;
@@ -177,6 +181,9 @@ extern "C" fn h_write_multiple_registers<'a>(
                 break;
             }
             items.push(((*p).index, (*p).value));
+        }
+        if !ffi::rodbus_register_value_iterator_next(it).is_null() {
+            WLOG.lock().unwrap().push("wR!more".into());
         }
     }
     WLOG.lock().unwrap().push(format!("wR.{}.{}", start, regs_text(&items)));
